@@ -107,6 +107,12 @@ Proof.
   - apply andb_true_iff in Ha as [H1 H2]. rewrite (H t x) by auto. cbn. apply IH; auto.
 Qed.
 
+Lemma all2_true_length : forall {A B} (f : A -> B -> bool) ts l, all2 true f ts l = true -> length l = length ts.
+Proof.
+  intros A B f ts. induction ts as [|t ts IH]; intros [|x l] H; cbn in H; try discriminate; [reflexivity|].
+  apply andb_true_iff in H as [_ H]. cbn. f_equal. now apply IH.
+Qed.
+
 Lemma all2_Forall2 : forall {A B} (f : A -> B -> bool) ts l,
   all2 true f ts l = true -> Forall2 (fun t x => f t x = true) ts l.
 Proof.
@@ -192,6 +198,7 @@ Lemma unm_map f k kt vt x : unm rt E (S f) (TMap k kt vt) x =
 Proof. reflexivity. Qed.
 Lemma unm_tuple f ts x : unm rt E (S f) (TTuple ts) x =
   bind (load rt x) (fun d => bind (itervalues rt d) (fun vs =>
+  if Nat.ltb (length vs) (length ts) then Raise EValue else
   bind (mapM (fun tv => unm rt E f (fst tv) (snd tv)) (zip_trunc ts vs)) (fun rs => Ok (PSeq KTuple rs)))).
 Proof. reflexivity. Qed.
 Lemma unm_union f ts x : unm rt E (S f) (TUnion ts) x = first_ok rt (map (unm rt E f) (union_stack_u ts)) x.
@@ -359,6 +366,15 @@ Qed.
 Lemma combine_pk : forall names l, combine (map PKey names) l = map pk (combine names l).
 Proof. induction names as [|a r IH]; intros [|x l]; cbn; try reflexivity. now rewrite IH. Qed.
 
+Lemma has_key_pk : forall f fs, has_key f (map pk fs) = has_kw f fs.
+Proof.
+  intros f fs. unfold has_kw, has_key. induction fs as [|[g v] r IH]; cbn; [reflexivity|].
+  destruct (Nat.eqb f g); [reflexivity | exact IH].
+Qed.
+
+Lemma forallb_ext : forall {A} (f g : A -> bool) l, (forall x, g x = f x) -> forallb f l = forallb g l.
+Proof. intros A f g l H. induction l as [|x r IH]; cbn; [reflexivity|]. now rewrite H, IH. Qed.
+
 Lemma iteritems_obj : forall c fs, iteritems rt E (PObj c fs) = Ok (map pk fs). Proof. reflexivity. Qed.
 
 Lemma td_shape : forall chk kvs seen, td_ok chk kvs seen = true ->
@@ -417,7 +433,7 @@ Section Pass.
 Variable lv : nat -> pv -> bool.
 Hypothesis LAWS : PassLaws rt lv.
 Hypothesis WF : wf_env E.
-Notation vg := (vgen lv rt E false).
+Notation vg := (vgen lv rt E).
 Notation oo := (optional_only E).
 
 Section Step.
@@ -453,6 +469,7 @@ Lemma pass_cls : forall c v,
       match cflavour cd, v with
       | FTypedDict, PDict KDict kvs =>
           td_ok (fun f x => match field_ty cd f with Some ft => vg n ft x | None => false end) kvs []
+          && req_ok cd kvs
       | FNamedTuple, PNamed c' l => Nat.eqb c c' && all2 true (fun fd x => vg n (fty fd) x) (cfields cd) l
       | FDataclass, PObj c' fs | FPlain, PObj c' fs =>
           Nat.eqb c c' &&
@@ -488,7 +505,7 @@ Proof.
     cbn [load is_scalar bind iteritems]. unfold named_fields. rewrite HE, combine_pk. cbn [bind].
     rewrite H1. cbn [bind]. unfold construct_class. rewrite Hfl, H2. cbn [bind]. now rewrite Hsnd.
   - (* TypedDict *)
-    destruct k; [|discriminate].
+    destruct k; [|discriminate]. apply andb_true_iff in Hv as [Hv Hreq].
     destruct (td_shape _ _ _ Hv) as [fs [Hk [Hnd [_ Hchk]]]]. subst l.
     destruct (ex_merge (fun f gv => exists ft, field_ty cd (fst gv) = Some ft /\ unm rt E f ft (snd gv) = Ok (snd gv)) fs)
       as [m Hm].
@@ -499,7 +516,9 @@ Proof.
       exists m. intros f Hf. exists (fty fd). split; [reflexivity | now apply Hm]. }
     exists m. intros f Hf. cbn [load is_scalar bind iteritems].
     rewrite (fold_pass _ cd fs []); [| assumption | intros g _ [] | intros gv Hin; now apply Hm].
-    cbn [bind app]. unfold construct_class. rewrite Hfl. reflexivity.
+    cbn [bind app]. unfold construct_class. rewrite Hfl.
+    unfold req_ok in Hreq. erewrite forallb_ext in Hreq; [rewrite Hreq; reflexivity|].
+    intros fd. cbn beta. now rewrite has_key_pk.
   - (* plain class *) apply Hobj; auto.
 Qed.
 End Step.
@@ -538,6 +557,7 @@ Proof.
     { intros tv Hin. destruct (zip_in _ _ _ _ _ Hv Hin) as [H1 [H2 _]].
       rewrite forallb_forall in Ho. now apply IH; [apply Ho|]. }
     exists (S m). intros [|f] Hf; [lia|]. rewrite unm_tuple. cbn [load is_scalar bind itervalues].
+    rewrite (all2_true_length _ _ _ Hv), Nat.ltb_irrefl.
     rewrite (tuple_pass _ _ _ _ _ Hv); [reflexivity|]. intros tv Hin. apply Hm; [lia | assumption].
   - (* TUnion *)
     destruct (optional_pair ts) as [a|] eqn:Hop; [|discriminate].
@@ -572,7 +592,7 @@ Qed.
 End Pass.
 
 (* ================================================================== monotonicity of vgen *)
-Definition vbody (lv : nat -> pv -> bool) (strict : bool) (rec : ty -> pv -> bool) (t : ty) (v : pv) : bool :=
+Definition vbody (lv : nat -> pv -> bool) (rec : ty -> pv -> bool) (t : ty) (v : pv) : bool :=
   match t with
   | TLeaf s | TRefLeaf s => lv s v
   | TNone => pv_eqb v (none rt)
@@ -590,7 +610,7 @@ Definition vbody (lv : nat -> pv -> bool) (strict : bool) (rec : ty -> pv -> boo
       end
   | TTuple ts =>
       match v with
-      | PSeq KTuple l => all2 strict rec ts l
+      | PSeq KTuple l => all2 true rec ts l
       | _ => false
       end
   | TUnion ts => existsb (fun t' => rec t' v) ts
@@ -602,6 +622,7 @@ Definition vbody (lv : nat -> pv -> bool) (strict : bool) (rec : ty -> pv -> boo
           match cflavour cd, v with
           | FTypedDict, PDict KDict kvs =>
               td_ok (fun f x => match field_ty cd f with Some ft => rec ft x | None => false end) kvs []
+              && req_ok cd kvs
           | FNamedTuple, PNamed c' l =>
               Nat.eqb c c' && all2 true (fun fd x => rec (fty fd) x) (cfields cd) l
           | FDataclass, PObj c' fs | FPlain, PObj c' fs =>
@@ -613,14 +634,14 @@ Definition vbody (lv : nat -> pv -> bool) (strict : bool) (rec : ty -> pv -> boo
   | TNewType _ t' | TAlias _ t' | TFinal t' | TClassVar t' | TRefTo t' => rec t' v
   end.
 
-Lemma vgen_S_eq : forall lv s n t v, vgen lv rt E s (S n) t v = vbody lv s (vgen lv rt E s n) t v.
+Lemma vgen_S_eq : forall lv n t v, vgen lv rt E (S n) t v = vbody lv (vgen lv rt E n) t v.
 Proof. reflexivity. Qed.
 
-Lemma vbody_mono : forall lv s s' (r1 r2 : ty -> pv -> bool) t v,
-  (s' = true -> s = true) -> (forall t v, r1 t v = true -> r2 t v = true) ->
-  vbody lv s r1 t v = true -> vbody lv s' r2 t v = true.
+Lemma vbody_mono : forall lv (r1 r2 : ty -> pv -> bool) t v,
+  (forall t v, r1 t v = true -> r2 t v = true) ->
+  vbody lv r1 t v = true -> vbody lv r2 t v = true.
 Proof.
-  intros lv s s' r1 r2 t v Hs Hr H.
+  intros lv r1 r2 t v Hr H.
   assert (forall c, match E c with
       | None => false
       | Some (NType t') => r1 t' v
@@ -628,6 +649,7 @@ Proof.
           match cflavour cd, v with
           | FTypedDict, PDict KDict kvs =>
               td_ok (fun f x => match field_ty cd f with Some ft => r1 ft x | None => false end) kvs []
+              && req_ok cd kvs
           | FNamedTuple, PNamed c' l =>
               Nat.eqb c c' && all2 true (fun fd x => r1 (fty fd) x) (cfields cd) l
           | FDataclass, PObj c' fs | FPlain, PObj c' fs =>
@@ -643,6 +665,7 @@ Proof.
           match cflavour cd, v with
           | FTypedDict, PDict KDict kvs =>
               td_ok (fun f x => match field_ty cd f with Some ft => r2 ft x | None => false end) kvs []
+              && req_ok cd kvs
           | FNamedTuple, PNamed c' l =>
               Nat.eqb c c' && all2 true (fun fd x => r2 (fty fd) x) (cfields cd) l
           | FDataclass, PObj c' fs | FPlain, PObj c' fs =>
@@ -663,7 +686,8 @@ Proof.
     - now apply Hobj.
     - apply andb_true_iff in Hc as [H1 H2]. rewrite H1. cbn.
       eapply all2_impl; [auto | | exact H2]. intros fd x _ _ Hx. now apply Hr.
-    - destruct k; [|discriminate]. eapply td_ok_impl; [|exact Hc]. intros g x Hx. cbn beta in *.
+    - destruct k; [|discriminate]. apply andb_true_iff in Hc as [Hc Hq]. rewrite Hq, andb_true_r.
+      eapply td_ok_impl; [|exact Hc]. intros g x Hx. cbn beta in *.
       destruct (field_ty cd g); [now apply Hr | discriminate].
     - now apply Hobj. }
   destruct t; cbn [vbody] in *; try assumption; try (now apply Hr); try (now apply Hcls).
@@ -675,24 +699,18 @@ Proof.
     rewrite Hk, Hkeys. cbn. rewrite andb_true_r. eapply forallb_impl; [|exact Hl].
     intros kv _ Hx. cbn beta in *. apply andb_true_iff in Hx as [Hx1 Hx2]. now rewrite (Hr _ _ Hx1), (Hr _ _ Hx2).
   - destruct v as [| |k' l| | |]; try discriminate. destruct k'; try discriminate.
-    eapply all2_impl; [exact Hs | | exact H]. intros; now apply Hr.
+    eapply all2_impl; [auto | | exact H]. intros; now apply Hr.
   - eapply existsb_impl; [|exact H]. intros t' Hx. now apply Hr.
 Qed.
 
-Lemma vgen_weak : forall lv n t v, vgen lv rt E true n t v = true -> vgen lv rt E false n t v = true.
+Lemma vgen_S : forall lv n t v, vgen lv rt E n t v = true -> vgen lv rt E (S n) t v = true.
 Proof.
   intros lv. induction n as [|n IH]; intros t v H; [discriminate|].
-  rewrite vgen_S_eq in *. eapply vbody_mono; [| exact IH | exact H]. discriminate.
+  rewrite vgen_S_eq in H. rewrite vgen_S_eq. eapply vbody_mono; [exact IH | exact H].
 Qed.
 
-Lemma vgen_S : forall lv s n t v, vgen lv rt E s n t v = true -> vgen lv rt E s (S n) t v = true.
-Proof.
-  intros lv s. induction n as [|n IH]; intros t v H; [discriminate|].
-  rewrite vgen_S_eq in H. rewrite vgen_S_eq. eapply vbody_mono; [| exact IH | exact H]. auto.
-Qed.
-
-Lemma vgen_le : forall lv s n m t v, n <= m -> vgen lv rt E s n t v = true -> vgen lv rt E s m t v = true.
-Proof. intros lv s n m t v Hle H. induction Hle; [assumption | now apply vgen_S]. Qed.
+Lemma vgen_le : forall lv n m t v, n <= m -> vgen lv rt E n t v = true -> vgen lv rt E m t v = true.
+Proof. intros lv n m t v Hle H. induction Hle; [assumption | now apply vgen_S]. Qed.
 
 (* ================================================================== results of unm are stable *)
 Lemma Forall2_merge : forall {A B} (P : nat -> A -> B -> Prop) l l',
@@ -785,13 +803,13 @@ Proof.
   apply IH. now apply dict_set_keeps_fresh.
 Qed.
 
-Lemma zip_all2 : forall (q : ty -> pv -> bool) ts vs rs,
-  Forall2 (fun (tv : ty * pv) r => q (fst tv) r = true) (zip_trunc ts vs) rs -> all2 false q ts rs = true.
+Lemma zip_all2 : forall (q : ty -> pv -> bool) ts vs rs, length ts <= length vs ->
+  Forall2 (fun (tv : ty * pv) r => q (fst tv) r = true) (zip_trunc ts vs) rs -> all2 true q ts rs = true.
 Proof.
-  intros q ts. induction ts as [|t ts IH]; intros vs rs H; cbn in H.
+  intros q ts. induction ts as [|t ts IH]; intros vs rs Hlen H; cbn in H.
   - inversion H. reflexivity.
-  - destruct vs as [|x vs]; inversion H; subst; cbn; [reflexivity|].
-    cbn in *. match goal with Hq : q t _ = true |- _ => rewrite Hq end. cbn. eapply IH. eassumption.
+  - destruct vs as [|x vs]; [cbn in Hlen; lia|]. inversion H; subst; cbn.
+    cbn in *. match goal with Hq : q t _ = true |- _ => rewrite Hq end. cbn. eapply IH; [|eassumption]. lia.
 Qed.
 
 Lemma kw_set_in : forall f v kw gv, In gv (kw_set f v kw) -> gv = (f, v) \/ (In gv kw).
@@ -880,7 +898,7 @@ Section Idem.
 Hypothesis LAWS : IdemLaws rt.
 Hypothesis WF : wf_env E.
 Hypothesis DC : DefaultsConform rt E.
-Notation sg := (vgen (fixlv rt) rt E false).
+Notation sg := (vgen (fixlv rt) rt E).
 Notation oo := (optional_only E).
 
 Definition Stab (t : ty) (y : pv) : Prop := exists k, sg k t y = true.
@@ -903,7 +921,7 @@ Lemma res_cls : forall c x y,
   match E c with None => true | Some (NType t') => oo n t'
   | Some (NClass cd) => forallb (fun fd => oo n (fty fd)) (cfields cd) end = true ->
   unm_cls (unm rt E n) c x = Ok y ->
-  exists k, vbody (fixlv rt) false (sg k) (TName c) y = true.
+  exists k, vbody (fixlv rt) (sg k) (TName c) y = true.
 Proof.
   intros c x y Ho H. unfold unm_cls in H. cbn [vbody]. destruct (E c) as [[cd|t']|] eqn:HE; [| |discriminate].
   2:{ exact (IH _ _ _ Ho H). }
@@ -935,13 +953,15 @@ Proof.
   - apply bind_ok in Hc as [l [Hl Hc]]. inversion Hc. subst y. destruct (Hfill l Hl) as [k Hk]. exists k.
     rewrite Nat.eqb_refl. cbn. apply Forall2_all2. apply Forall2_map_r. eapply Forall2_imp; [|exact Hk].
     intros fd gv [_ H2]. exact H2.
-  - inversion Hc. subst y.
+  - destruct (forallb _ (cfields cd)) eqn:Hreq in Hc; [|discriminate]. injection Hc as Hy. subst y.
     destruct (ex_merge (fun k gv => match field_ty cd (fst gv) with Some ft => sg k ft (snd gv) | None => false end = true) kw)
       as [k Hk].
     { intros gv Hin. destruct (Hst gv Hin) as [ft [Hft [k Hk]]]. exists k. intros f Hf. rewrite Hft.
-      now apply (vgen_le _ _ k). }
+      now apply (vgen_le _ k). }
     exists k. change (map (fun fv : nat * pv => (PKey (fst fv), snd fv)) kw) with (map pk kw).
-    apply td_ok_of; [assumption | intros g _ [] |]. intros gv Hin. now apply (Hk k).
+    apply andb_true_iff. split.
+    + apply td_ok_of; [assumption | intros g _ [] |]. intros gv Hin. now apply (Hk k).
+    + unfold req_ok. erewrite forallb_ext; [exact Hreq|]. intros fd. cbn beta. now rewrite has_key_pk.
   - apply bind_ok in Hc as [l [Hl Hc]]. inversion Hc. subst y. destruct (Hfill l Hl) as [k Hk]. exists k. now apply Hobj.
 Qed.
 End StepI.
@@ -958,7 +978,7 @@ Proof.
     apply bind_ok in H as [rs [Hm Hc]]. apply mapM_ok in Hm.
     destruct (ex_merge (fun k r => sg k T r = true) rs) as [m Hmm].
     { intros r Hr. destruct (Forall2_in_l _ _ _ _ Hm Hr) as [x' [_ Hu]]. destruct (IH _ _ _ Ho Hu) as [k0 Hk0].
-      exists k0. intros f Hf. now apply (vgen_le _ _ k0). }
+      exists k0. intros f Hf. now apply (vgen_le _ k0). }
     exists (S m). cbn [vgen]. unfold construct_seq in Hc.
     destruct k; try (inversion Hc; subst y; cbn [seqkind_eqb set_ok andb]; rewrite andb_true_r;
                      apply forallb_forall; intros r Hr; now apply (Hmm m));
@@ -975,7 +995,7 @@ Proof.
       apply bind_ok in Hu as [k' [Hu1 Hu]]. apply bind_ok in Hu as [v' [Hu2 Hu]]. inversion Hu. subst r.
       destruct (IH _ _ _ Ho1 Hu1) as [k1 Hk1]. destruct (IH _ _ _ Ho2 Hu2) as [k2 Hk2].
       exists (Nat.max k1 k2). intros f Hf. cbn [fst snd].
-      split; [apply (vgen_le _ _ k1) | apply (vgen_le _ _ k2)]; try assumption; lia. }
+      split; [apply (vgen_le _ k1) | apply (vgen_le _ k2)]; try assumption; lia. }
     unfold construct_map in Hc. destruct (existsb (fun kv => unhashable rt (fst kv)) rs) eqn:Hh; [discriminate|].
     inversion Hc. subst y. rewrite existsb_map_fst in Hh.
     assert (forall kv, In kv (dict_of rt rs) -> In (fst kv) (map fst rs) /\ In (snd kv) (map snd rs)) as Hin.
@@ -991,6 +1011,7 @@ Proof.
       * unfold dict_of. now apply dict_fold_fresh_res.
   - (* TTuple *)
     rewrite unm_tuple in H. apply bind_ok in H as [d [_ H]]. apply bind_ok in H as [vs [_ H]].
+    destruct (Nat.ltb (length vs) (length ts)) eqn:Hlt; [discriminate|]. apply Nat.ltb_ge in Hlt.
     apply bind_ok in H as [rs [Hm Hc]]. inversion Hc. subst y. apply mapM_ok in Hm.
     destruct (Forall2_merge (fun k (tv : ty * pv) r => sg k (fst tv) r = true) (zip_trunc ts vs) rs) as [k Hk].
     { intros k tv r. apply vgen_S. }
@@ -1027,22 +1048,12 @@ End Idem.
 End Sem.
 
 (* ================================================================== the statements used by Props/C13.v *)
-Theorem passthrough_stable : forall rt E lv, PassLaws rt lv -> wf_env E ->
-  forall n T v, optional_only E n T = true -> stable lv rt E n T v = true ->
-  exists m, forall fuel, m <= fuel -> unm rt E fuel T v = Ok v.
-Proof. intros rt E lv L W n T v Ho Hv. exact (pass_stable rt E lv L W n T v Ho Hv). Qed.
-
 Theorem passthrough : forall rt E lv, PassLaws rt lv -> wf_env E ->
   forall n T v, optional_only E n T = true -> valid lv rt E n T v = true ->
   exists m, forall fuel, m <= fuel -> unm rt E fuel T v = Ok v.
-Proof.
-  intros rt E lv L W n T v Ho Hv. apply (passthrough_stable rt E lv L W n T v Ho). now apply vgen_weak.
-Qed.
+Proof. intros rt E lv L W n T v Ho Hv. exact (pass_stable rt E lv L W n T v Ho Hv). Qed.
 
-Theorem valid_stable : forall rt E lv n T v, valid lv rt E n T v = true -> stable lv rt E n T v = true.
-Proof. intros. now apply vgen_weak. Qed.
-
-Theorem stable_fuel_mono : forall rt E lv n m T v, n <= m -> stable lv rt E n T v = true -> stable lv rt E m T v = true.
+Theorem valid_fuel_mono : forall rt E lv n m T v, n <= m -> valid lv rt E n T v = true -> valid lv rt E m T v = true.
 Proof. intros rt E lv n m T v. apply vgen_le. Qed.
 
 Lemma fixlv_laws : forall rt, IdemLaws rt -> PassLaws rt (fixlv rt).
@@ -1053,7 +1064,7 @@ Qed.
 
 Theorem unm_results_stable : forall rt E, IdemLaws rt -> wf_env E -> DefaultsConform rt E ->
   forall n T x y, optional_only E n T = true -> unm rt E n T x = Ok y ->
-  exists k, stable (fixlv rt) rt E k T y = true.
+  exists k, valid (fixlv rt) rt E k T y = true.
 Proof. intros rt E L W D n T x y Ho H. exact (results_stable rt E L W D n T x y Ho H). Qed.
 
 Theorem idempotent : forall rt E, IdemLaws rt -> wf_env E -> DefaultsConform rt E ->
@@ -1063,7 +1074,7 @@ Theorem idempotent : forall rt E, IdemLaws rt -> wf_env E -> DefaultsConform rt 
 Proof.
   intros rt E L W D T Ho n x y H.
   destruct (unm_results_stable rt E L W D n T x y (Ho n) H) as [k Hk].
-  exact (passthrough_stable rt E (fixlv rt) (fixlv_laws rt L) W k T y (Ho k) Hk).
+  exact (passthrough rt E (fixlv rt) (fixlv_laws rt L) W k T y (Ho k) Hk).
 Qed.
 
 (* the computable guards are sound *)
